@@ -68,8 +68,10 @@ def c13(work, tier, seed, replay):
     flaky = {}
     for kind in ("serverless", "sumdb", "tiles", "pixel", "rekor"):
         fp = work.path("flaky-%s.ndjson" % kind)
-        o, dt = run_driver(["tile", "-out", fp, "-pairs", "0", "-samples", "0", "-feeder", kind, "-seed", str(seed), "-workers", "4", "-chains", "6" if tier == "quick" else "60",
-                            "-fronts", "flaky,plain,flaky,gzip"], timeout=3000)
+        # (chains: the long-running feeder; pairs: one cycle with plenty of time whose first request for each data URL outlasts the HTTP client's
+        #  timeout - "slowonce" - or is answered with an error page - "flaky" -; the cycle retries and succeeds)
+        o, dt = run_driver(["tile", "-out", fp, "-pairs", "0" if kind == "serverless" else ("7" if tier == "quick" else "20"), "-samples", "0", "-feeder", kind, "-seed", str(seed), "-workers", "4",
+                            "-chains", "6" if tier == "quick" else "60", "-fronts", "flaky,slowonce,flaky,slowonce" if kind != "serverless" else "flaky,plain,flaky,gzip"], timeout=3000)
         fevs = read_ndjson(fp)
         jr2 = tlc(work, "Trace_Tile", cfg_text(spec="JSpec", constants={"Height": 8, "Levels": {0}, "Indices": {0}, "Widths": {1}, "TraceFile": fp},
                                                action_constraints=["Monitor"], postcondition="Done"), name="judge-flaky-" + kind, workers=1, timeout=1800, heap="8g")
@@ -157,6 +159,14 @@ def c15(work, tier, seed, replay):
     with open(tp, "a") as f_:
         f_.write(open(mt).read())
     rep.cov["runs_inside_omniwitness_Main"] = len(main_scens)
+    # ... and inside the production binary (its Prometheus metric factory, its flags): three logs hold a checkpoint, the binary is restarted with
+    # --rest_distro_url, and the distributor answers one of them with a status line some proxy mangled (reason phrase not UTF-8, very long, empty)
+    pt_ = work.path("dist-prod.ndjson")
+    o, dt = run_driver(["dist-prod", "-bin", build_prod_binary(), "-out", pt_, "-seed", str(seed), "-dir", work.sub("db")], timeout=3000)
+    rep.notes.append(o.strip())
+    with open(tp, "a") as f_:
+        f_.write(open(pt_).read())
+    rep.cov["runs_inside_the_production_binary"] = 3
     events = read_ndjson(tp)
     jr = tlc(work, "MC_Trace_Dist", cfg_text(spec="TSpec", constants={"NLogs": 1, "TraceFile": tp}, action_constraints=["Monitor"], postcondition="Done"),
              name="judge-dist", workers=1, timeout=3600, heap="12g")
